@@ -40,7 +40,7 @@
  *                       for an accepted NON, RST when rejected) is delivered to the server (repeat = duplicate, never =
  *                       loss, late = delay).  The I/O loop runs at the end of every delivery (coap_io_do_epoll does).
  *                       n >= 1000 means "the (n-1000)-th most recent one".
- *   err:r:b             from now on the GET handler of r<r> answers 4.04 (b=1) / 2.05 (b=0)
+ *   err:r:b             from now on the GET handler of r<r> answers 4.04 (b=1) / 5.03 (b=2) / 5.00 (b=3) / 2.05 (b=0)
  *   lost:c              the server's session for client c is lost (coap_session_disconnected, NOT_DELIVERABLE)
  *   del:r               the application deletes r<r> (coap_delete_resource)
  *   blk:c:r:t:q:k:mid:num   (block-wise lines only, r must be a b|B resource) client c fetches block <num> of the body in
@@ -226,7 +226,11 @@ static void hnd_get(coap_resource_t *r, coap_session_t *s, const coap_pdu_t *req
   int k = -1;
   uint8_t pl[4];
   for (int i = 0; i < nres; i++) if (res[i] == r) k = i;
-  if (k >= 0 && res_err[k]) { coap_pdu_set_code(rsp, COAP_RESPONSE_CODE_NOT_FOUND); return; }
+  if (k >= 0 && res_err[k]) {
+    coap_pdu_set_code(rsp, res_err[k] == 2 ? COAP_RESPONSE_CODE_SERVICE_UNAVAILABLE :
+                           res_err[k] == 3 ? COAP_RESPONSE_CODE_INTERNAL_ERROR : COAP_RESPONSE_CODE_NOT_FOUND);
+    return;
+  }
   coap_pdu_set_code(rsp, COAP_RESPONSE_CODE_CONTENT);
   if (k >= 0 && res_blk[k]) {
     /* a body of 2.5 blocks, every byte = the state's version: libcoap cuts it into blocks (lg_xmit) */
@@ -392,7 +396,7 @@ static int do_event(char *ev) {
   }
   if (!strcmp(op, "err")) {
     int r = geti(f, nf, 1), b = geti(f, nf, 2);
-    if (nf != 3 || r < 0 || r >= nres || b < 0 || b > 1) return 0;
+    if (nf != 3 || r < 0 || r >= nres || b < 0 || b > 3) return 0;
     res_err[r] = b; return 1;
   }
   if (!strcmp(op, "lost")) {
